@@ -107,6 +107,15 @@ class Repo(object):
             self.git(["commit", "-q", "-m", "c"])
         os.makedirs(os.path.join(self.root, "d", "e"), exist_ok=True)
 
+    def install_clean_filter(self):
+        """a clean filter for the notebooks of ONE directory; the pattern is anchored at the repository root
+        (.git/info/attributes, so the tree does not change)"""
+        os.makedirs(os.path.join(self.root, ".git", "info"), exist_ok=True)
+        with io.open(os.path.join(self.root, ".git", "info", "attributes"), "w", encoding="utf8") as fh:
+            fh.write("d/*.ipynb filter=scrub\n")
+        self.git(["config", "filter.scrub.clean", "sed -e 's/\"cid\": /\"cid\": 10/'"])
+        self.filtered = True
+
     # ---- projection of the real repository -----------------------------------
     def show(self, spec):
         p = subprocess.run(["git", "show", spec], cwd=self.root, env=self.env, stdout=subprocess.PIPE, stderr=subprocess.PIPE)
@@ -130,7 +139,10 @@ class Repo(object):
             return 0
         if side == "WT":
             f = os.path.join(self.root, p)
-            return cid_of_text(p, io.open(f, encoding="utf8").read() if os.path.exists(f) else None)
+            cid = cid_of_text(p, io.open(f, encoding="utf8").read() if os.path.exists(f) else None)
+            if cid > 0 and getattr(self, "filtered", False) and "filter: scrub" in self.git(["check-attr", "filter", "--", p]):
+                cid = int("10%d" % cid)      # what git compares is the cleaned content
+            return cid
         if side == "INDEX":
             return cid_of_text(p, self.show(":" + p))
         return cid_of_text(p, self.show("%s:%s" % (side, p)))
@@ -310,6 +322,12 @@ def replay(task):
                     if (k + n) % 3 and flt is not None and cwd == "":
                         continue          # thin out the root+filter combinations
                     one(a, b, cwd, flt, "")
+        # a clean filter configured for the notebooks of one directory: the working-tree side git compares is the
+        # cleaned content of exactly those notebooks, from whatever directory the question is asked
+        repo.install_clean_filter()
+        for (a, b) in [("HEAD", "WT"), ("INDEX", "WT")]:
+            for cwd in CWDS:
+                one(a, b, cwd, None, "f")
     finally:
         shutil.rmtree(d, True)
         shutil.rmtree(d + "-home", True)
